@@ -20,7 +20,7 @@ type MessageUserScalars struct {
 	K string `mavlen:"5"`
 }
 
-func (*MessageUserScalars) GetID() uint32 { return 50001 }
+func (*MessageUserScalars) GetID() uint32 { return 61501 }
 
 type MessageUserArrays struct {
 	A [3]uint8
@@ -36,7 +36,7 @@ type MessageUserArrays struct {
 	K string `mavlen:"1"`
 }
 
-func (*MessageUserArrays) GetID() uint32 { return 50002 }
+func (*MessageUserArrays) GetID() uint32 { return 61502 }
 
 type MessageUserExt struct {
 	Base1 uint8
@@ -51,7 +51,7 @@ type MessageUserExt struct {
 	E7    uint16     `mavext:"true"`
 }
 
-func (*MessageUserExt) GetID() uint32 { return 50003 }
+func (*MessageUserExt) GetID() uint32 { return 61503 }
 
 type MessageUserEnums struct {
 	E8    uint64    `mavenum:"uint8"`
@@ -68,7 +68,7 @@ type MessageUserEnums struct {
 	X32   [2]uint64 `mavenum:"uint32" mavext:"true"`
 }
 
-func (*MessageUserEnums) GetID() uint32 { return 50004 }
+func (*MessageUserEnums) GetID() uint32 { return 61504 }
 
 type MessageUserNames struct {
 	HTTPCode  uint16 `mavname:"HTTPCode"`
@@ -78,24 +78,24 @@ type MessageUserNames struct {
 	ID        uint8
 }
 
-func (*MessageUserNames) GetID() uint32 { return 50005 }
+func (*MessageUserNames) GetID() uint32 { return 61505 }
 
 type MessageUserEmpty struct{}
 
-func (*MessageUserEmpty) GetID() uint32 { return 50006 }
+func (*MessageUserEmpty) GetID() uint32 { return 61506 }
 
 type MessageUserOneByte struct {
 	V uint8
 }
 
-func (*MessageUserOneByte) GetID() uint32 { return 50007 }
+func (*MessageUserOneByte) GetID() uint32 { return 61507 }
 
 type MessageUserBig struct {
 	A [31]uint64
 	B [7]uint8
 }
 
-func (*MessageUserBig) GetID() uint32 { return 50008 }
+func (*MessageUserBig) GetID() uint32 { return 61508 }
 
 type MessageUserStrings struct {
 	S1 string `mavlen:"1"`
@@ -104,9 +104,34 @@ type MessageUserStrings struct {
 	S3 string `mavlen:"3" mavext:"true"`
 }
 
-func (*MessageUserStrings) GetID() uint32 { return 50009 }
+func (*MessageUserStrings) GetID() uint32 { return 61509 }
+
+// ids that need the third id byte (legal in MAVLink 2)
+type MessageUserHighId struct {
+	A uint16
+	B [3]uint8
+	C string `mavlen:"4"`
+}
+
+func (*MessageUserHighId) GetID() uint32 { return 0x010005 }
+
+type MessageUserMaxId struct {
+	V uint32
+	W uint8 `mavext:"true"`
+}
+
+func (*MessageUserMaxId) GetID() uint32 { return 0xFFFFFF }
+
+type MessageUserHighId2 struct {
+	A uint16
+	B [3]uint8
+	C string `mavlen:"4"`
+}
+
+func (*MessageUserHighId2) GetID() uint32 { return 0x020005 } // differs from MessageUserHighId in the third id byte only
 
 var userMessages = []message.Message{
 	&MessageUserScalars{}, &MessageUserArrays{}, &MessageUserExt{}, &MessageUserEnums{},
 	&MessageUserNames{}, &MessageUserEmpty{}, &MessageUserOneByte{}, &MessageUserBig{}, &MessageUserStrings{},
+	&MessageUserHighId{}, &MessageUserMaxId{}, &MessageUserHighId2{},
 }
